@@ -130,6 +130,29 @@ CHECKS = {
              'N = h - H, and every reached state denotes the start position within 0.3 mm by independent oracles.',
         note='"Any reached state denotes the start position" contains every closed chain of the statement.',
         design='§5/C15'),
+    'C16': dict(
+        text='rotation_matrix / enu2xyz / xyz2enu on latitude {+-90,+-45,0,fill} x longitude [-360,360] x 9 vectors x 6 input '
+             'types (orthonormality, det +1, east/north/normal columns, depth-2 inverse and length); covariance rotations on the '
+             'PSD lattice (rank 0-3, condition 1e8, 7 rotations) and 3x1 columns at 8 positions incl. poles (symmetry, '
+             'eigenvalues, trace, round trip, rotated diagonal); error ellipse / relative error against eigen-decomposition '
+             'oracles; k_val95 for every integer dof in -5..200 against the scipy Student-t quantile.',
+        note='numpy eigvalsh and scipy t quantile (cross-checked with stdtrit) are the trusted base.',
+        design='§5/C16'),
+    'C19': dict(
+        text='joins/radiations/polar2rect/rect2polar on 4 origins x 5 lengths (1 mm..1e7 m) x bearings every 15 deg + the axes '
+             '+-1e-9 deg with rotation/scale variants; va_conv on zenith x slope x instrument/target heights; first velocity '
+             'correction on wavelength x temperature (incl. 0 C) x pressure x humidity (incl. 0 %) / wet bulb x CO2 x distance: '
+             'defined everywhere, proportional, CO2 form = (n_ref/n_g - 1) d, within 1 ppm of the closed form; group = phase + '
+             'sigma dN/dsigma by a 5-point stencil of phase_refractivity.',
+        note='Plane geometry against IEEE trigonometry with the stated 1e-9 d tolerance.',
+        design='§5/C19'),
+    'C20': dict(
+        text='Flask test client: /vincdir and /vincinv over a query lattice (negative/western values, HP-valid and decimal text, '
+             'cardinal azimuths, poles, antimeridian, coincident points) x all 9 combinations of from/to angle type in {dd, dms, '
+             'absent}: status 200 and JSON bit-identical to the library call with hp2dec/dec2hp applied; the index lists and '
+             'serves every rule of the URL map. ~14 600 requests.',
+        note='hp2dec/dec2hp are the reference for the DMS angle type (decided by C08).',
+        design='§5/C20'),
 }
 
 ALL = ['C%02d' % i for i in range(1, 21)]
